@@ -277,6 +277,8 @@ def run(ctx):
     r_strong_registry(ctx)
     r_ortho(ctx)
     r_registered(ctx)
+    from . import solveprog
+    solveprog.r_solve_program(ctx, {"drain"})     # every partition generates its relations once per solve (also in a model without functions) and they are sent
     pepsolve.r_registry(ctx)
     pepsolve.r_fresh_declarations(ctx, only=("declare_block_partition",))
     formula.r_formula(ctx, "sound", only={"BlockSmoothConvexFunction"})
